@@ -76,10 +76,18 @@ def validate_tjp_file(tjp_path: str) -> Path:
     """
     path = Path(tjp_path)
 
-    if not path.exists():
+    # The probes themselves can fail (name too long, no permission on a directory of the path):
+    # that is an unusable input file like any other
+    try:
+        exists = path.exists()
+        is_file = exists and path.is_file()
+    except OSError as e:
+        raise FileNotFoundError(f"File not found: {tjp_path} ({e})") from e
+
+    if not exists:
         raise FileNotFoundError(f"File not found: {tjp_path}")
 
-    if not path.is_file():
+    if not is_file:
         raise FileNotFoundError(f"Not a file: {tjp_path}")
 
     if path.suffix != ".tjp":
